@@ -5,7 +5,7 @@ precondition given only what the regular-expression groups guarantee.
 """
 import z3
 
-from pyvc.contracts import contract, Contract, REGISTRY
+from pyvc.contracts import contract, Contract, LoopSpec, REGISTRY
 from pyvc.sym import (T, TD, SObj, SBool, SInt, SStr, SDate, Sym, Unsupported)
 from pyvc.ops import zbool, truth, PyExc
 from pyvc.interp import Builtin, specfn
@@ -98,3 +98,52 @@ contract(GT + 'is_date_like', props=['C11'],
          requires=[('time-window-given-as-a-pair', '(min_time is None) == (max_time is None)')],
          inline=[GT + 'poss_date'],
          ensures=[('returns-a-match-or-None', 'result is None or result.__class__.__name__ == "Match"')])
+
+
+# ---------------------------------------------------------------------------
+# TestGenerator.test_name (C12): every generated test method has a name of its
+# own.  A name handed out twice means the later method silently replaces the
+# earlier one in the generated class, i.e. one output is never checked.
+# The set of names already taken is an arbitrary (uninterpreted) set.
+# ---------------------------------------------------------------------------
+from pyvc.sym import StrS
+from pyvc.ops import strz
+
+_TAKEN = z3.Function('name_already_taken', StrS, z3.BoolSort())
+
+
+def _namegen_view(it):
+    rc = extract.load_module('tdda/referencetest/gentest.py').classes['TestGenerator']
+    added = []
+    it.ghost['names_added'] = added
+
+    def contains(x):
+        xz = strz(it, x)
+        return SBool(z3.Or(_TAKEN(xz), *[xz == strz(it, a) for a in added]))
+    names = SObj('set', {'__contains__': contains, '__open__': False}, label='test_names')
+    names.methods['add'] = Builtin(lambda it2, self, x: added.append(x), 'set.add')
+    o = SObj('TestGenerator', {'test_names': names, 'test_qualifier': it.fresh(T.nat, 'test_qualifier')}, label='self')
+    o.repo_class = rc
+    return o
+
+
+@specfn
+def was_taken(it, name):
+    return SBool(_TAKEN(strz(it, name)))
+
+
+@specfn
+def recorded(it, name):
+    added = it.ghost.get('names_added', [])
+    if not added:
+        return False
+    return SBool(z3.Or(*[strz(it, name) == strz(it, a) for a in added]))
+
+
+contract(GT + 'TestGenerator.test_name', props=['C12', 'C11'],
+         params=dict(path=T.enum('out/report.txt', 'x', 'a/b/x2', 'dir/STDOUT')),
+         self_view=_namegen_view, spec_env=dict(PRIMS, was_taken=was_taken, recorded=recorded),
+         loops={1: LoopSpec([('qualifier-is-a-count', 'self.test_qualifier >= 0')],
+                            havoc={'testname': T.str, 'self.test_qualifier': T.nat})},
+         ensures=[('name-not-handed-out-before', 'not was_taken(result)'),
+                  ('name-recorded-as-taken', 'recorded(result)')])
